@@ -97,3 +97,48 @@ func ghostSegmentsOrdered(w *Writer) bool {
 //@   modifies w.latestSeqNum, bufferSegment.buf
 //@   modifies{C17} io.Writer.stream
 //@   ensures w.latestSeqNum == seqNum
+
+// ---- reading a saved WAL back (C17). A WAL file is a sequence of records
+//   <seq: 8 bytes LE> <key: 4-byte LE length, bytes> <tombstone: 1 byte> [<value: 4-byte LE length, bytes>]
+// whose sequence numbers are consecutive (the DB gives every operation the next number).
+// ghostWalStart(d, o): o starts a record of d; ghostWalNext: where the following record starts;
+// ghostWalIdx: how many records precede it. walWF: the file is well formed in this sense
+// (a hypothesis about the file - the writer appends whole records, Put/Delete above).
+func ghostWLE32(d []byte, o int) int {
+	return int(d[o]) + int(d[o+1])*256 + int(d[o+2])*65536 + int(d[o+3])*16777216
+}
+func ghostWalTombAt(d []byte, o int) int { return o + 8 + 4 + ghostWLE32(d, o+8) }
+
+var ghostWalStart func(d []byte, o int) bool
+var ghostWalNext func(d []byte, o int) int
+var ghostWalIdx func(d []byte, o int) int
+
+//@ define walLE64(d, o) := uint64(d[o]) + uint64(d[o+1])*256 + uint64(d[o+2])*65536 + uint64(d[o+3])*16777216 + uint64(d[o+4])*4294967296 + uint64(d[o+5])*1099511627776 + uint64(d[o+6])*281474976710656 + uint64(d[o+7])*72057594037927936
+//@ define walEnd(d, o) := ite(d[ghostWalTombAt(d, o)] == 1, ghostWalTombAt(d, o) + 1, ghostWalTombAt(d, o) + 1 + 4 + ghostWLE32(d, ghostWalTombAt(d, o) + 1))
+//@ define walWF(d) := ghostWalStart(d, 0) && ghostWalIdx(d, 0) == 0 &&
+//@        forall(func(oo_ int) bool { return trig(ghostWalNext(d, oo_)) && (ghostWalStart(d, oo_) && 0 <= oo_ && oo_ < len(d) ==>
+//@               ghostWalNext(d, oo_) == walEnd(d, oo_) && ghostWalNext(d, oo_) <= len(d) && ghostWalStart(d, ghostWalNext(d, oo_)) &&
+//@               ghostWalIdx(d, ghostWalNext(d, oo_)) == ghostWalIdx(d, oo_) + 1 && walLE64(d, oo_) == walLE64(d, 0) + uint64(ghostWalIdx(d, oo_))) })
+//@ define walRd(c) := io.Reader(c)
+
+// Reader.All: on a well-formed file both loops stay on the record grid; the skip loop passes
+// exactly (startAfter - first + 1) records, so the first record handed out is the one after the
+// start marker, and every record handed out carries the key / value / flag it was read with and
+// a sequence number above the start marker. (firstSeqNum == the number at offset 0 is a hypothesis
+// of that clause: a cursor built by a struct literal starts at offset 0, which the io model - ghost
+// position of the reader - does not know.)
+//@ func Reader.All
+//@   property C17
+//@   nosafety
+//@   atcall yield@9: arg1 == nil && arg0.Deleted && same(arg0.K, key)
+//@   atcall yield@11: !arg0.Deleted && same(arg0.K, key) && same(arg0.V, value) && arg0.seqNum == seqNum
+//@   atcall yield@11: walWF(walRd(cursor).data) && firstSeqNum == walLE64(walRd(cursor).data, 0) && r.startAfter < 18446744073709551615 ==> seqNum > r.startAfter
+//@   loop 0:
+//@     invariant walWF(walRd(cursor).data) ==> 0 <= walRd(cursor).pos && walRd(cursor).pos <= len(walRd(cursor).data) && ghostWalStart(walRd(cursor).data, walRd(cursor).pos) &&
+//@               (walRd(cursor).pos < len(walRd(cursor).data) ==> ghostWalNext(walRd(cursor).data, walRd(cursor).pos) > walRd(cursor).pos) &&
+//@               uint64(ghostWalIdx(walRd(cursor).data, walRd(cursor).pos)) + i == skipEntriesCount
+//@   loop 1:
+//@     invariant walWF(walRd(cursor).data) ==> 0 <= walRd(cursor).pos && walRd(cursor).pos <= len(walRd(cursor).data) && ghostWalStart(walRd(cursor).data, walRd(cursor).pos) &&
+//@               (walRd(cursor).pos < len(walRd(cursor).data) ==> ghostWalNext(walRd(cursor).data, walRd(cursor).pos) > walRd(cursor).pos) &&
+//@               uint64(ghostWalIdx(walRd(cursor).data, walRd(cursor).pos)) >= skipEntriesCount
+//@     invariant r.startAfter < 18446744073709551615 ==> skipEntriesCount + firstSeqNum == r.startAfter + 1
